@@ -96,7 +96,7 @@ def main_c19(tier):
         tail_tasks += [(-k - 1, 0, 1) for k in range(len(dc.tail_variants()))]
         for part in pmap(dc.c19_tail_chunk, tail_tasks):
             sweep_recs.extend(part)
-        sweeps.append({"what": "every sweep file cut 1, 2, 3, 16, 256, 4000 bytes before its end",
+        sweeps.append({"what": "every sweep file and ten more full-size variants cut 1..32, 40, 48, 64, 100, 161, 256, 700, 1500, 4000 bytes before the end; every line start of four raw full-size files",
                        "files": len(dc.minimal_cases())})
     # ---- header-field value sweep (an enumeration; both tiers)
     field_recs = []
